@@ -14,7 +14,7 @@ Cfg == JsonDeserialize(IOEnv.TREEOBJ_CFG)   \* [g, inits: Seq(tree), lib: Seq(tr
 G == Cfg.g
 Lib == Cfg.lib
 Inits == Cfg.inits
-CONSTANTS MaxSteps
+CONSTANTS MaxSteps, WithSerialize
 
 ObsSets == { {"str", "is_open"}, {"paths", "find", "sub"}, {"trie", "subtrie"}, {"leaves", "open_leaves", "len"},
              {"shash", "is_open"}, {"str", "is_open", "paths", "find", "sub", "trie", "subtrie", "leaves", "open_leaves", "len", "shash"}, {} }
@@ -95,6 +95,14 @@ Expand(c, os) ==
   /\ UNCHANGED <<t, used>>
 Observe(os) ==
   /\ hist' = Append(hist, [op |-> "Observe", obs |-> os]) /\ UNCHANGED <<t, used>>
+(* C17: serializing (JSON / pickle / the CLI's JSON parse-tree format) and computing k-path caches  *)
+(* are stuttering steps: the tree and every later observer answer stay the same                       *)
+SerKinds == <<"json", "pickle", "cli_json">>
+SerializeOp(kind, os) ==
+  /\ hist' = Append(hist, [op |-> "Serialize", kind |-> kind, obs |-> os]) /\ UNCHANGED <<t, used>>
+TouchKPathsOp(kk, concrete, os) ==
+  /\ ValidTree(G, t)          \* k-paths are only defined for derivation trees of the grammar
+  /\ hist' = Append(hist, [op |-> "TouchKPaths", kk |-> kk, concrete |-> concrete, obs |-> os]) /\ UNCHANGED <<t, used>>
 
 AllObs == {"str", "is_open", "paths", "find", "sub", "trie", "subtrie", "leaves", "open_leaves", "len", "shash"}
 Next ==
@@ -107,6 +115,8 @@ Next ==
        \/ \E id1, id2 \in Ids(t), k1, k2 \in 1..Len(Lib) : Substitute2(id1, k1, id2, k2, os)
        \/ \E c \in 0..2 : Expand(c, os)
        \/ Observe(os)
+       \/ WithSerialize /\ \E kd \in 1..3 : SerializeOp(SerKinds[kd], os)
+       \/ WithSerialize /\ \E kk \in 2..3, cc \in BOOLEAN : TouchKPathsOp(kk, cc, os)
 Spec == Init /\ [][Next]_vars
 
 (* Random walks through the same actions: `dice` holds the random numbers  *)
@@ -135,7 +145,9 @@ RNext ==
          canSub2 == /\ Fresh(k) /\ Fresh(k2) /\ k # k2 /\ id # id2 /\ Ids(Lib[k]) \cap Ids(Lib[k2]) = {}
                     /\ ~PathPrefix(PathOfId(t, id), PathOfId(t, id2)) /\ ~PathPrefix(PathOfId(t, id2), PathOfId(t, id))
          canExp == OpenPaths(t) # {} /\ Size(t) <= 60 /\ \A q \in OpenPaths(t) : Sub(t, q).n \in DOMAIN G
-     IN IF dice.kind \in 1..5 /\ canRepl THEN ReplacePath(p, k, os)
+     IN IF WithSerialize /\ dice.kind \in {3, 6, 11} THEN SerializeOp(SerKinds[(dice.c % 3) + 1], os)
+        ELSE IF WithSerialize /\ dice.kind \in {4, 12} /\ ValidTree(G, t) THEN TouchKPathsOp(2 + (dice.c % 2), dice.d % 2 = 0, os)
+        ELSE IF dice.kind \in 1..5 /\ canRepl THEN ReplacePath(p, k, os)
         ELSE IF dice.kind \in 6..7 /\ canRepl THEN Substitute(id, k, os)
         ELSE IF dice.kind \in 8..9 /\ canSub2 THEN Substitute2(id, k, id2, k2, os)
         ELSE IF dice.kind = 10 /\ canExp /\ Len(hist) >= 2 THEN Expand(dice.c % 3, os)
